@@ -16,9 +16,9 @@ def ltStep (_ : Unit) (t : List String) : Unit × String :=
       let r := LT.setMillis (c != 0) v
       ((), joinNat [r.mult, r.base, r.millis, r.encode])
     | _, _ => ((), "bad-op")
-  | ["old", v] =>
-    match nat? v with
-    | some v => let r := LT.setMillisOld v; ((), joinNat [r.mult, r.base, r.millis, r.encode])
+  | ["ind", b] =>
+    match nat? b with
+    | some b => ((), toString (indRemainingS b))
     | _ => ((), "bad-op")
   | ["dec", b] =>
     match nat? b with
